@@ -230,5 +230,6 @@ def classify(c, o, why):
     return None
 
 
+CLAIMED = False
 LEVEL_TEXT = "work in progress"
 LEVEL_NOTE = "work in progress"
